@@ -87,7 +87,7 @@ func C09(t Tier) int {
 	run.Coverage["traces_validated_against_impl"] = execs
 	run.Coverage["histories"] = hist
 	run.Coverage["twin_configurations_per_history_in_process"] = cfgs / max(1, hist)
-	run.Coverage["child_process_configurations"] = 3
+	run.Coverage["child_process_configurations"] = 4
 	run.Coverage["tx_outcomes"] = outcomes
 	run.Coverage["exhaustive"] = !capHit
 	run.Coverage["cap_hit"] = capHit
@@ -116,6 +116,7 @@ func c09Shard(t Tier, shard, n int) (run *report.Run) {
 	}
 	dl := deadline(t, 100*time.Second, 20*time.Minute)
 	cases := buildShard(e, maxLen, shard, n)
+	cases = append(cases, upgradeCases(e, shard, n)...) // histories containing an in-process software upgrade
 	// every genesis: unusual but validation-passing genesis variants, each followed by one block of mixed traffic; they
 	// are compared several times (each execution samples Go's map iteration order anew)
 	gvNames := sortedKeys(genesisVariants)
@@ -172,6 +173,11 @@ func c09Shard(t Tier, shard, n int) (run *report.Run) {
 				{"simulate-before-every-tx", RunOpts{StopAt: -1, SimulateBefore: true}},
 				{"queries-between-all-calls", RunOpts{StopAt: -1, QueriesBetween: true}},
 				{"all-extras", RunOpts{StopAt: -1, CheckTxBefore: true, SimulateBefore: true, QueriesBetween: true}},
+				// node-local settings (app.toml) are not consensus: an operator demanding a high minimum gas price for his own
+				// mempool, or running with the inter-block cache, must compute the same blocks
+				{"node-config:minimum-gas-prices=5umed", RunOpts{StopAt: -1, MinGasPrices: "5umed"}},
+				{"node-config:minimum-gas-prices=5umed+checktx", RunOpts{StopAt: -1, MinGasPrices: "5umed", CheckTxBefore: true}},
+				{"node-config:inter-block-cache", RunOpts{StopAt: -1, InterBlockCache: true, QueriesBetween: true}},
 			}
 			// extra calls are placed at every position of the history's own blocks (the shared setup block's positions
 			// are explored once, with the first history); CheckTx/Simulate precede a DeliverTx, queries go anywhere
@@ -244,6 +250,7 @@ func c09Shard(t Tier, shard, n int) (run *report.Run) {
 		{"child-GOMAXPROCS=1", 1, RunOpts{StopAt: -1}},
 		{"child-GOMAXPROCS=16", 16, RunOpts{StopAt: -1}},
 		{"child-GOMAXPROCS=3-all-extras", 3, RunOpts{StopAt: -1, CheckTxBefore: true, SimulateBefore: true, QueriesBetween: true}},
+		{"child-GOMAXPROCS=2-min-gas-prices=0.1umed-inter-block-cache", 2, RunOpts{StopAt: -1, MinGasPrices: "0.1umed", InterBlockCache: true}},
 	}
 	if t.Thorough {
 		childCfgs = append(childCfgs, struct {
